@@ -20,6 +20,14 @@ fn opt_dpv(v: Option<precis_core::DerivedPropertyValue>) -> String {
 
 // value of function `name` at cp; None = not in the function's domain (char-only fn at a non-scalar)
 pub fn eval(name: &str, cp: u32) -> Option<String> {
+    // a panic of the library is a value ("PANIC"), not a crash of the dump
+    match std::panic::catch_unwind(|| eval_inner(name, cp)) {
+        Ok(v) => v,
+        Err(_) => Some("PANIC".to_string()),
+    }
+}
+
+fn eval_inner(name: &str, cp: u32) -> Option<String> {
     let ch = char::from_u32(cp);
     Some(match name {
         "is_letter_digit" => b(core_hooks::is_letter_digit(cp)),
@@ -78,6 +86,26 @@ pub fn eval(name: &str, cp: u32) -> Option<String> {
             let s: String = ch?.to_string();
             match precis_profiles::UsernameCasePreserved::new().directionality_rule(s.as_str()) {
                 Ok(t) => if t == s { "ok".to_string() } else { "changed".to_string() },
+                Err(_) => "err".to_string(),
+            }
+        }
+        "opmap_after" | "nickmap_mid" => {
+            // additional mapping rules with c after a non-ASCII space / between two letters; the code point itself
+            // is written as "c" in the result so that runs compress
+            use precis_core::profile::Rules;
+            let c = ch?;
+            let (s, r): (String, _) = if name == "opmap_after" {
+                let s: String = ['\u{a0}', c, 'b'].iter().collect();
+                let r = precis_profiles::OpaqueString::new().additional_mapping_rule(s.clone()).map(|x| x.into_owned());
+                (s, r)
+            } else {
+                let s: String = ['a', c, 'b'].iter().collect();
+                let r = precis_profiles::Nickname::new().additional_mapping_rule(s.clone()).map(|x| x.into_owned());
+                (s, r)
+            };
+            let _ = s;
+            match r {
+                Ok(t) => t.chars().map(|x| if x == c { "c".to_string() } else { format!("{:04X}", x as u32) }).collect::<Vec<_>>().join(" "),
                 Err(_) => "err".to_string(),
             }
         }
